@@ -262,6 +262,10 @@ func (i *interpreter) check(extra ...*Term) SatResult {
 	lits := make([]*Term, 0, len(i.pc)+len(extra))
 	lits = append(lits, i.pc...)
 	lits = append(lits, extra...)
+	if d := i.run.cfg.Deadline; d > 0 && time.Since(i.run.started) > d+d/4 {
+		// the harness's wall budget is used up: stop this path instead of queueing more solver work
+		panic(pathEnd{kind: Inconclusive, msg: "wall budget of the harness exhausted inside a path"})
+	}
 	return i.solver.Check(lits)
 }
 
